@@ -124,6 +124,17 @@ where C: FullDuplexMultiChannel<ItemType = u32> + Send + Sync + 'static,
                             ret(tid, 17, id as i64, 0);
                         } else { verif::yield_point("yield", 2); ret(tid, 19, 0, 0); }
                     },
+                    "split" => {
+                        // (log channel only) an old / new pair of streams created with every shared access scheduled - possibly while sends are in progress
+                        let free = table.iter().filter(|s| s.lock().unwrap().is_none()).count();
+                        if free >= 2 {
+                            let ((old, old_id), (new, new_id)) = chan.create_streams_for_old_and_new_events();
+                            *table[old_id as usize].lock().unwrap() = Some(Arc::new(Mutex::new(old)));
+                            *table[new_id as usize].lock().unwrap() = Some(Arc::new(Mutex::new(new)));
+                            last_created = Some(new_id as usize);
+                            ret(tid, 16, old_id as i64, new_id as i64);
+                        } else { verif::yield_point("yield", 2); ret(tid, 19, 0, 0); }
+                    },
                     "drops" => {
                         let i = op.arg(0) as usize;
                         let s = table[i].lock().unwrap().take();
@@ -212,6 +223,7 @@ where C: FullDuplexMultiChannel<ItemType = u32> + Send + Sync + 'static,
 macro_rules! dispatch_nm {
     ($f:ident, $case:expr) => {
         match ($case.get("N", 4), $case.get("M", 2)) {
+            (2, 2) => $f::<2, 2>($case), (2, 4) => $f::<2, 4>($case),           // (more listeners than buffer slots)
             (4, 1) => $f::<4, 1>($case), (4, 2) => $f::<4, 2>($case), (4, 4) => $f::<4, 4>($case),
             (8, 1) => $f::<8, 1>($case), (8, 2) => $f::<8, 2>($case), (8, 4) => $f::<8, 4>($case),
             (n, m) => panic!("unsupported N={n} M={m}"),
